@@ -30,6 +30,7 @@ type writerSim struct {
 func (ws *writerSim) cfg(entry string) *simCfg {
 	return &simCfg{
 		NoLoopSamples: true,
+		PreciseExits:  true,
 		Opaque: map[string]bool{"(*paddedWriter).Write": true, "(*Writer).headerBytes": true, "(*Writer).getBlockStats": true,
 			"uniqSorted": true, "commonPrefixSize": true, "(*Writer).indexHash": true, "(*Writer).headerSize": true, "(*Writer).footerSize": true},
 		Pure: map[string]bool{"(*blockWriter).getType": true, "method:(record).typ": true, "method:(record).key": true, "method:(record).String": true,
@@ -130,6 +131,8 @@ func (ws *writerSim) cfg(entry string) *simCfg {
 					c.g(s).flags["flushed:"+b.key] = tTrue
 					x.store(s, bwAddr, tNil, nil)
 					c.cfg.OnStoreHook(c, x, s, fr, site.Pos(), bwAddr, tNil, b)
+					// no block writer, no pending entries
+					x.store(s, ws.entriesCell(), tConst("0", nil), nil)
 					s.note(site.Pos(), "flushBlock: block written, index entry appended, block writer cleared")
 					outs = append(outs, CallOut{St: s, Val: tNil})
 				}
